@@ -257,20 +257,24 @@ def main(argv):
     # every spelling of every intrinsic operator, in the contexts where its level matters (the tree enumeration above uses
     # one or two representatives per level)
     SPELLINGS = {6: ["==", "/=", "<", "<=", ">", ">=", ".eq.", ".ne.", ".lt.", ".le.", ".gt.", ".ge.", ".EQ.", ".Ne.", ". ne .", ".GE."],
-                 4: [".and.", ".AND.", ".And."], 3: [".or.", ".OR."], 2: [".eqv.", ".neqv.", ".EQV.", ".NEQV."],
+                 4: [".and.", ".AND.", ".And.", ". and .", ".and .", ". AND."], 3: [".or.", ".OR.", ". or .", ". Or."], 2: [".eqv.", ".neqv.", ".EQV.", ".NEQV.", ". eqv .", ". neqv ."],
+                 0: [".not.", ".NOT.", ". not .", ".Not ."],
                  7: ["//"], 8: ["+", "-"], 9: ["*", "/"], 10: ["**"]}
     CONTEXTS = ["a %s b", "a .and. b %s c", "a %s b .and. c", ".not. a %s b", "a .or. b %s c", "a %s b .eqv. c", "a + b %s c * d", "a %s b + c",
                 "a // b %s c", "a .myop. b %s c", "(a %s b) .and. c", "a ** b %s c", "- a %s b"]
     for std in ("f2003", "f2008"):
         ParserFactory().create(std=std)
         from fparser.two.Fortran2003 import Expr
+        import re as _re_sp
+        UNARY_CONTEXTS = ["%s a", "%s a == b", "%s a .and. b", "a .or. %s b", "a .and. %s b .or. c", "%s a .eqv. b", "%s (a .or. b) .and. c", "a .myop. %s b", "%s a // b == c"]
         for level, spellings in SPELLINGS.items():
             for sp in spellings:
-                for ctx in CONTEXTS:
+                for ctx in (UNARY_CONTEXTS if level == 0 else CONTEXTS):
                     text = ctx % sp
                     cases += 1
                     try:
-                        want = norm(parse_expr(text.replace(". ne .", ".ne.")))
+                        # blanks inside the dots of an operator are not significant: the reference sees the compact spelling
+                        want = norm(parse_expr(_re_sp.sub(r"\.\s*([A-Za-z]+)\s*\.", lambda m: "." + m.group(1) + ".", text)))
                     except Exception:
                         continue        # not a valid expression (e.g. two non-associative relational operators in a row)
                     distinct += 1
